@@ -230,3 +230,51 @@ func (c *cluster) logMatching(a, b *node) {
 		}
 	}
 }
+
+// electableWithoutCommitted is the state form of Leader Completeness used as a look-ahead:
+// it returns a node whose persisted log lacks a committed entry although its log is at least
+// as up to date as the logs of a majority (so nothing in the voting rules would stop it from
+// being elected). In a correct implementation no reachable state has such a node; when one is
+// found the search does not report it but tries to drive that node to leadership (see
+// expander.complete), and only the resulting genuine violation is reported.
+// Only used for fixed memberships (majority of the initial members).
+func (c *cluster) electableWithoutCommitted() (uint64, uint64) {
+	if c.cfg.Joiner {
+		return 0, 0
+	}
+	type last struct{ term, idx uint64 }
+	lasts := make([]last, len(c.nodes))
+	for i, n := range c.nodes {
+		li := n.lastIndex()
+		t, _ := n.termAt(li)
+		lasts[i] = last{t, li}
+	}
+	quorum := c.cfg.Members/2 + 1
+	for i, n := range c.nodes {
+		missing := uint64(0)
+		for idx := 1; idx < len(c.ledger); idx++ {
+			l := &c.ledger[idx]
+			if !l.set || uint64(idx) <= n.snapIdx {
+				continue
+			}
+			en, ok := n.entryAt(uint64(idx))
+			if !ok || en.Term != l.term {
+				missing = uint64(idx)
+				break
+			}
+		}
+		if missing == 0 {
+			continue
+		}
+		votes := 0
+		for j := range c.nodes {
+			if lasts[i].term > lasts[j].term || (lasts[i].term == lasts[j].term && lasts[i].idx >= lasts[j].idx) {
+				votes++
+			}
+		}
+		if votes >= quorum {
+			return n.id, missing
+		}
+	}
+	return 0, 0
+}
